@@ -30,7 +30,7 @@ import (
 type Op struct {
 	Q    string `json:"q"`
 	Kind string `json:"kind"`
-	Via  string `json:"via"` // pid (default) | name
+	Via  string `json:"via"` // pid (default) | name | alias
 }
 
 type Scenario struct {
@@ -92,6 +92,8 @@ type world struct {
 	helper   gen.PID // answers the synchronous requests of "call" handlers
 	initGate bool    // Init is a yield point (spawn scenarios)
 	name     gen.Atom
+	alias    gen.Alias
+	mkAlias  bool
 	// free-running mode: callbacks append to this log instead of yielding to the controller
 	free bool
 	fmu  sync.Mutex
@@ -149,6 +151,8 @@ func (w *world) watched(subject any) bool {
 		return s == w.pid
 	case gen.ProcessID:
 		return w.name != "" && s.Name == w.name
+	case gen.Alias:
+		return w.alias != gen.Alias{} && s == w.alias
 	case lib.QueueMPSC:
 		return s == w.mbox.Main || s == w.mbox.System || s == w.mbox.Urgent || s == w.mbox.Log
 	}
@@ -200,8 +204,19 @@ func idOfReason(err error) string {
 	return ""
 }
 
+// mkAliasCmd: set-up message (before the plan starts) that makes the process create the alias it is addressed by
+type mkAliasCmd struct{}
+
 func (g *gactor) HandleMessage(from gen.PID, message any) (rr error) {
 	w := g.w
+	if _, ok := message.(mkAliasCmd); ok {
+		if a, err := g.CreateAlias(); err == nil {
+			w.mu.Lock()
+			w.alias = a
+			w.mu.Unlock()
+		}
+		return nil
+	}
 	w.enter()
 	defer w.leave()
 	var m Msg
@@ -453,7 +468,19 @@ func (r *Runner) RunPlan(scn *Scenario, plan *Plan) error {
 		w.name = gen.Atom(fmt.Sprintf("pcj_%d_%d", os.Getpid()%10000, r.seq))
 	} else {
 		var err error
-		pid, err = r.Node.Spawn(factory, opts, w)
+		byName := false
+		for _, ops := range scn.Senders {
+			for _, op := range ops {
+				byName = byName || op.Via == "name"
+				w.mkAlias = w.mkAlias || op.Via == "alias"
+			}
+		}
+		if byName {
+			w.name = gen.Atom(fmt.Sprintf("pcn_%d_%d", os.Getpid()%10000, r.seq))
+			pid, err = r.Node.SpawnRegister(w.name, factory, opts, w)
+		} else {
+			pid, err = r.Node.Spawn(factory, opts, w)
+		}
 		if err != nil {
 			return fmt.Errorf("spawn: %w", err)
 		}
@@ -466,6 +493,24 @@ func (r *Runner) RunPlan(scn *Scenario, plan *Plan) error {
 		}
 		if !r.Ctl.AllDone() {
 			return fmt.Errorf("initial runner did not finish")
+		}
+		if w.mkAlias {
+			if err := r.Node.Send(pid, mkAliasCmd{}); err != nil {
+				return fmt.Errorf("alias set-up: %w", err)
+			}
+			r.Ctl.Settle()
+			for guard := 0; guard < 200 && !r.Ctl.AllDone(); guard++ {
+				for _, l := range r.Ctl.Parked() {
+					r.Ctl.Grant(l)
+				}
+				r.Ctl.Settle()
+			}
+			w.mu.Lock()
+			ok := w.alias != gen.Alias{}
+			w.mu.Unlock()
+			if !ok || !r.Ctl.AllDone() {
+				return fmt.Errorf("alias set-up did not finish")
+			}
 		}
 	}
 
@@ -498,6 +543,11 @@ func (r *Runner) RunPlan(scn *Scenario, plan *Plan) error {
 				default:
 					if op.Via == "name" {
 						err = r.Core.RouteSendProcessID(from, gen.ProcessID{Name: w.name, Node: r.Node.Name()}, gen.MessageOptions{Priority: prioOf(op.Q)}, Msg{ID: id, Kind: op.Kind})
+					} else if op.Via == "alias" {
+						w.mu.Lock()
+						al := w.alias
+						w.mu.Unlock()
+						err = r.Core.RouteSendAlias(from, al, gen.MessageOptions{Priority: prioOf(op.Q)}, Msg{ID: id, Kind: op.Kind})
 					} else {
 						err = r.Core.RouteSendPID(from, pid, gen.MessageOptions{Priority: prioOf(op.Q)}, Msg{ID: id, Kind: op.Kind})
 					}
